@@ -149,12 +149,12 @@ def gen_cases(ctx):
                 ops.append({"op": "take", "w": int(s[-1])})
         mk("small " + " ".join(seq), n, ops, True)
     # random structured cases
-    n_rand = 60 if ctx.thorough else 14
+    n_rand = 60 if ctx.thorough else 10
     for c in range(n_rand):
         n = rng.choice([1, 2, 2, 3, 4])
         sim = Sim(n)
         ops = []
-        length = rng.randint(30, 90) if c % 4 else rng.randint(300, 700)
+        length = rng.randint(30, 90) if c % 4 else rng.randint(250, 500)
         bias_push = rng.choice([0.45, 0.55, 0.7])
         for _ in range(length):
             r = rng.random()
@@ -442,8 +442,8 @@ def run(ctx):
     if rc != 0 or len(outs) != len(cases) or not stress or not scen:
         ctx.tie_broken("go-harness TestVerifC05*", out[-4000:])
     if ctx.thorough:
-        rc2, out2 = ctx.go_test("actor", "^TestVerifC05(Stress|Scenarios)", files, env={"VERIF_THOROUGH": "0", "VERIF_OUT": os.path.join(ctx.work, "race")}, race=True, timeout=1500)
         os.makedirs(os.path.join(ctx.work, "race"), exist_ok=True)
+        rc2, out2 = ctx.go_test("actor", "^TestVerifC05(Stress|Scenarios)", files, env={"VERIF_THOROUGH": "0", "VERIF_OUT": os.path.join(ctx.work, "race")}, race=True, timeout=1500)
         if "DATA RACE" in out2:
             ctx.notes.append("-race reported a data race (supporting evidence only): " + out2[-1500:])
 
